@@ -454,3 +454,31 @@ def algorithms_agree(ck, tier, seed, salt=222):
                     ck.violation(k, msg + " [%s, case %d]" % (net.kind, i), dict(wit, input=txt if len(ck.violations) < 3 else None))
         if i < 2:
             ck.sample(dict(level="network", index=i, kind=net.kind, features=feats))
+
+
+def xml_cov_against_reference(R, ev, ref, m0):
+    """Compare the band-stored cov-mat of a parsed result with m0^2 Q_ref of the recorded system.
+    Returns (max error/tolerance, first discrepancy message or None, number of entries compared)."""
+    lab = xmlout.cov_labels(R)
+    idx = {(u["id"], u["type"]): k for k, u in enumerate(ev["unknowns"])}
+    oris = [k for k, u in enumerate(ev["unknowns"]) if u["type"] == "R"]
+    ys = ev["y_sign"]
+    order, sgn = [], []
+    for (pid, ax) in lab:
+        if pid == "orientation":
+            order.append(oris[ax]); sgn.append(ys)
+        else:
+            order.append(idx[(pid, ax.upper())]); sgn.append(ys if ax == "y" else 1.0)
+    order = np.array(order, dtype=int); sgn = np.array(sgn)
+    C = xmlout.cov_matrix(R)
+    Cref = (m0 * m0) * ref.Q[np.ix_(order, order)] * np.outer(sgn, sgn)
+    mask = ~np.isnan(C)
+    scale = float(np.max(np.abs(Cref))) if Cref.size else 1.0
+    err = np.abs(C - Cref)
+    tolm = 2e-7 * np.abs(Cref) + ref.tol(scale) * 10 + 1e-7 * scale
+    ratio = float(np.max((err / np.maximum(tolm, 1e-300))[mask])) if mask.any() else 0.0
+    msg = None
+    if ratio > 1:
+        i, j = np.argwhere(mask & (err > tolm))[0]
+        msg = "cov(%s,%s): XML %.9g, m0^2 Q = %.9g" % (lab[i], lab[j], C[i, j], Cref[i, j])
+    return ratio, msg, int(mask.sum()), C, [int(x) + 1 for x in order]
